@@ -318,7 +318,7 @@ def run(ck):
     if ck.quick() and len(coq_cases) > 4000:
         idx = sorted(ck.rng("coq-sample").sample(range(len(coq_cases)), 4000))
         coq_cases = [coq_cases[i] for i in idx]; coq_meta = [coq_meta[i] for i in idx]
-    bad = ck.coq_cases("roundtrip", IMPORTS, "roundtrip_case_ok", coq_cases, ty="msg_case", defs=DEFS, shard=250)
+    bad = ck.coq_cases("roundtrip", IMPORTS, "roundtrip_case_ok", coq_cases, ty="msg_case", defs=DEFS, shard=100 if ck.quick() else 300)
     ck.bump("model_compared_roundtrip", len(coq_cases))
     ck.log(f"model comparison (parse.marshal on the marshalled original): {len(coq_cases)} cases, {len(bad)} disagreements")
     seen = set()
